@@ -48,7 +48,7 @@ func TestPropSpoolOutage(t *testing.T) {
 		reconn := time.Duration(rapid.SampledFrom([]int{20, 50, 100}).Draw(t, "reconnMs")) * time.Millisecond
 		flush := time.Duration(rapid.SampledFrom([]int{5, 20, 50}).Draw(t, "flushMs")) * time.Millisecond
 		o := dh.Opts{Route: fmt.Sprintf("c07r%d", caseSeq%4), Spool: true, Flush: flush, Reconn: reconn,
-			ConnBuf: rapid.SampledFrom([]int{100, 1000, 30000}).Draw(t, "connbuf"), IoBuf: rapid.SampledFrom([]int{256, 4096, 65536}).Draw(t, "iobuf"),
+			ConnBuf: rapid.SampledFrom([]int{1, 10, 100, 1000, 30000}).Draw(t, "connbuf"), IoBuf: rapid.SampledFrom([]int{256, 4096, 65536}).Draw(t, "iobuf"),
 			SpoolBuf: rapid.SampledFrom([]int{10, 100, 10000}).Draw(t, "spoolbuf"), SpoolMaxBytes: int64(rapid.SampledFrom([]int{500, 4000, 1 << 20}).Draw(t, "maxbytesperfile")),
 			SpoolSyncEvery: int64(rapid.SampledFrom([]int{1, 10, 10000}).Draw(t, "syncevery")), SpoolSyncPeriod: time.Duration(rapid.SampledFrom([]int{10, 1000}).Draw(t, "syncperiodMs")) * time.Millisecond,
 			SpoolSleep: time.Duration(rapid.SampledFrom([]int{1, 50, 500}).Draw(t, "spoolsleepUs")) * time.Microsecond, Unspool: time.Duration(rapid.SampledFrom([]int{1, 10, 200}).Draw(t, "unspoolsleepUs")) * time.Microsecond}
@@ -95,10 +95,21 @@ func TestPropSpoolOutage(t *testing.T) {
 		seq := 0
 		var sched []string
 		downLines := 0
+		sluggish := 0
+		padMul := rapid.SampledFrom([]int{1, 1, 8}).Draw(t, "padMul") // line length up to ~60 or ~320 bytes
 		for pi, p := range phases {
 			if p.up != isUp {
 				if p.up {
-					ne := ep.NewOn(addr)
+					// the endpoint may come back sluggish: it accepts the connection but reads nothing (small receive window)
+					// until this phase's lines have been handed; the backlog is then drained into a connection that is busy
+					var ne *ep.Endpoint
+					if rapid.IntRange(0, 3).Draw(t, "sluggish") == 0 {
+						ne = ep.NewOnBuf(addr, 4096)
+						ne.SetMode(ep.BlackHole)
+						sluggish++
+					} else {
+						ne = ep.NewOn(addr)
+					}
 					eps = append(eps, ne)
 				} else {
 					eps[len(eps)-1].Down(rapid.Bool().Draw(t, "rst"))
@@ -109,7 +120,7 @@ func TestPropSpoolOutage(t *testing.T) {
 			sched = append(sched, fmt.Sprintf("%v:%d", map[bool]string{true: "up", false: "down"}[p.up], p.lines))
 			for i := 0; i < p.lines; i++ {
 				seq++
-				l := fmt.Sprintf("c07.%d.l%d.%s %d %d", caseSeq, seq, strings.Repeat("p", seq%37), seq, 1500000000+seq)
+				l := fmt.Sprintf("c07.%d.l%d.%s %d %d", caseSeq, seq, strings.Repeat("p", (seq%37)*padMul), seq, 1500000000+seq)
 				handed = append(handed, l)
 				x.Hand([]byte(l))
 				if !p.up {
@@ -121,6 +132,9 @@ func TestPropSpoolOutage(t *testing.T) {
 			}
 			_ = pi
 			time.Sleep(p.pause)
+			if p.up && len(eps) > 0 {
+				eps[len(eps)-1].SetMode(ep.Healthy) // a sluggish endpoint recovers at the end of its phase
+			}
 		}
 		// ---- completion: everything handed is received or counted; then the backlog must be gone
 		Hset := map[string]bool{}
@@ -264,7 +278,7 @@ func TestPropSpoolOutage(t *testing.T) {
 			}
 		}
 		rec.Case(fmt.Sprintf("%v reconn=%s flush=%s connbuf=%d iobuf=%d spoolbuf=%d maxbytes=%d syncevery=%d pace=%d", sched, reconn, flush, o.ConnBuf, o.IoBuf, o.SpoolBuf, o.SpoolMaxBytes, o.SpoolSyncEvery, pace),
-			spooled && replayed, fmt.Sprintf("went-through-spool=%v", spooled), fmt.Sprintf("replayed-from-redo-buffer=%v", replayed), fmt.Sprintf("drops>0=%v", x.SlowConn()+x.SlowSpool() > 0), fmt.Sprintf("first-phase-down=%v", !phases[0].up))
+			spooled && replayed, fmt.Sprintf("went-through-spool=%v", spooled), fmt.Sprintf("replayed-from-redo-buffer=%v", replayed), fmt.Sprintf("drops>0=%v", x.SlowConn()+x.SlowSpool() > 0), fmt.Sprintf("first-phase-down=%v", !phases[0].up), fmt.Sprintf("sluggish-return=%v", sluggish > 0), fmt.Sprintf("connbuf=%d", o.ConnBuf))
 		rec.Num("lines_handed", int64(len(handed)))
 		rec.Num("lines_dropped_counted", x.SlowConn()+x.SlowSpool())
 	})
